@@ -181,6 +181,16 @@ def rule_bind(prog, rep):
         site = method_site(prog, c, "__init__")
         for f in ("base_dist", "bijection"):
             compare(rep, "C05.bind", site, f"{name}.__init__:{f}", got.get(f, ("unknown", "not assigned")), want[f], f)
+    rule_param_ctors(prog, rep, "C05.bind")
+
+
+def rule_param_ctors(prog, rep, R, declare=False):
+    """Affine / Scale / Loc / TriangularAffine store their parameters broadcast to the bijection's shape: the
+    log-determinant `log|scale|.sum()` has one term per event dimension only then."""
+    if declare:
+        rep.rule(R, "the parameter bijections (Affine, Loc, Scale, TriangularAffine) store loc / scale broadcast to the "
+                    "bijection's shape and declare that shape: sum(log|scale|) then has one term per dimension (a scalar "
+                    "scale kept un-broadcast contributes log s once instead of d times)", minimum=4)
     for q, (argn, src, fields) in PARAM_CTORS.items():
         c = prog.cls(q)
         args = [("sym", a) for a in argn]
@@ -188,7 +198,7 @@ def rule_bind(prog, rep):
         want, _ = eval_ref_method(prog, c, src, args, want_fields=True)
         site = method_site(prog, c, "__init__")
         for f in fields:
-            compare(rep, "C05.bind", site, f"{c.name}.__init__:{f}", got.get(f, ("unknown", "not assigned")), want[f], f)
+            compare(rep, R, site, f"{c.name}.__init__:{f}", got.get(f, ("unknown", "not assigned")), want[f], f)
 
 
 # ------------------------------------------------------------------------ accessors
@@ -269,6 +279,7 @@ def rule_access(prog, rep):
         args = [("sym", a) for a in argn]
         fields = Interp(prog).eval_init(c, args)
         it = Interp(prog)
+        it.inline_properties = True  # an accessor written through inherited properties (loc, scale) is evaluated through them
         it.self_fields = dict(fields)
         r = prog.find_method(c, acc)
         if r is None:
@@ -362,8 +373,12 @@ def rule_mix(prog, rep, R="C05.mix"):
         rest = [a for a in lw[2][1:]] + [v for k, v in lw[3] if k not in ("fn",)]
         if fn is None and lw[2]:
             fn = lw[2][0]
-        arg_ok = any(equal(strip_error_if(a), ("call", ("ext", "jax.numpy.log"), (), (("a", W),))) for a in rest) or any(
-            a[0] == "star" and a[1][0] == "tuple" and any(equal(strip_error_if(x), ("call", ("ext", "jax.numpy.log"), (), (("a", W),))) for x in a[1][1]) for a in rest)
+        def is_log_w(a):
+            # log(weights), up to array conversion of the argument (asarray / arraylike_to_array keep the values)
+            a = simplify_values(prog, strip_error_if(a))
+            return equal(a, ("call", ("ext", "jax.numpy.log"), (), (("a", W),)))
+        arg_ok = any(is_log_w(a) for a in rest) or any(
+            a[0] == "star" and a[1][0] == "tuple" and any(is_log_w(x) for x in a[1][1]) for a in rest)
         fn_ok = False
         if fn is not None and fn[0] == "lam" and fn[1] == 1:
             lvl = min([s[1] for s in walk(fn) if s[0] == "bv"] or [0])
